@@ -2,23 +2,13 @@ NOTES = ('Technique family: contract-based deductive verification of the real co
          'discharged, 1 violation (VIOLATION line), 2 undecided (lost anchor / unsupported construct / solver limit) - never an alarm.')
 
 NOT_APPLICABLE = {
-    'C01': 'not built yet in this session (planned: Verus units interner/registry/retain/portable)',
-    'C02': 'not built yet in this session (planned: image_of postcondition on every into_portable impl)',
     'C03': 'subject is the output of two proc-macros (scale-info-derive, parity-scale-codec-derive) over all programs; macro bodies manipulate syn/quote token trees that neither Verus nor Kani can interpret; decided per generated program, i.e. by program generation - another family',
     'C04': 'quantifies over type expressions and over the behaviour of parity-scale-codec Encode impls (dependency code not under contract); a contract on type_info::<Option<T>>() would restate the impl, relating it to bytes needs a SCALE model of the dependency (proving a model)',
-    'C05': 'not built yet in this session',
-    'C06': 'not built yet in this session (planned: Kani encode-side harnesses)',
     'C07': 'needs the derived Decode: measured TypeDef::decode > 15 min, Field round trip > 17 min, registry decode of 8 symbolic bytes > 16 min / 5 GB under CBMC; Verus cannot see derive output; a spec-level injectivity lemma would be about a model',
     'C08': 'code is serde-derive output driving serde_json; no function in /repo to put a contract on, CBMC cannot execute serde_json symbolically at useful sizes',
     'C09': 'proc-macro over all programs x feature configurations (as C03); the one pure function (clean_type_string) is a private String pipeline covering a sliver of the statement',
-    'C10': 'not built yet in this session',
-    'C11': 'not built yet in this session',
     'C13': 'decided by rustc trait solver per generated program (programs that must compile) - no contract can express it',
-    'C14': 'not built yet in this session',
     'C15': 'a relation between different builds (feature sets) of the crate; a contract verifies one cfg at a time and the statement is about bytes produced by whole programs',
-    'C16': 'not built yet in this session',
-    'C17': 'not built yet in this session',
-    'C18': 'not built yet in this session',
     'C19': 'schemars-generated schema x serde output x a JSON Schema validator - none of it is code of this repository that a verifier here can interpret',
     'C20': 'a statement about programs that must NOT type-check; decided by rustc per program',
 }
